@@ -57,6 +57,7 @@ func main() {
 	dump := flag.Bool("dump", false, "with -decode: print file contents as JSON instead of writing them")
 	regen := flag.String("regenerate", "", "rewrite file_to_generate of a request file (prints the new request to stdout)")
 	gens := flag.String("generate", "", "comma separated file_to_generate for -regenerate")
+	param := flag.String("parameter", "\x00", "with -regenerate: replace the request's parameter string")
 	origReq := flag.String("orig-requests", "", "write requests that regenerate the checked-in packages as they are (dir)")
 	flag.Parse()
 	if *origReq != "" {
@@ -72,7 +73,12 @@ func main() {
 		if err := proto.Unmarshal(b, &req); err != nil {
 			panic(err)
 		}
-		req.FileToGenerate = strings.Split(*gens, ",")
+		if *gens != "" {
+			req.FileToGenerate = strings.Split(*gens, ",")
+		}
+		if *param != "\x00" {
+			req.Parameter = proto.String(*param)
+		}
 		out, _ := proto.Marshal(&req)
 		os.Stdout.Write(out)
 		return
@@ -155,7 +161,14 @@ func main() {
 		}
 		// the schema as given to the generator (ground truth for descriptor comparisons)
 		if s.Expect == "ok" {
-			fb, _ := proto.Marshal(&descriptorpb.FileDescriptorSet{File: req.ProtoFile})
+			// (without source info: the registered descriptors never carry it)
+			fset := &descriptorpb.FileDescriptorSet{}
+			for _, f := range req.ProtoFile {
+				c := proto.Clone(f).(*descriptorpb.FileDescriptorProto)
+				c.SourceCodeInfo = nil
+				fset.File = append(fset.File, c)
+			}
+			fb, _ := proto.Marshal(fset)
 			if err := os.WriteFile(filepath.Join(*out, s.Name+".fds"), fb, 0o644); err != nil {
 				panic(err)
 			}
